@@ -215,3 +215,15 @@ def main_inprocess(argv, patches=None):
         sys.argv = old_argv
         for k, v in saved.items():
             setattr(peltool, k, v)
+
+
+def guard(oracle, fn, *args, **kw):
+    """Calls repo code that the property says must handle every input; an
+    escaping exception is a violation, not a harness error."""
+    try:
+        with captured():
+            return fn(*args, **kw)
+    except Exception as e:
+        raise Violation(oracle, '%s raised %s: %s (at %s)' % (
+            getattr(fn, '__name__', 'call'), type(e).__name__, e, repo_frame(e.__traceback__)),
+            sig='%s:raised:%s' % (oracle, type(e).__name__))
